@@ -565,7 +565,9 @@ def run_fuzz(case: dict):
     ET = m["EventTime"]
     with Patched([case["rn"]], []) as px:
         v = ET(case["T"], ET.Unit.US).fuzz((case["a"], case["b"]), (case["minb"], case["maxb"]))
-        assert px.tape.pos == 1 and px.tape.overrun == 0
+        if px.tape.pos != 1 or px.tape.overrun:
+            # one uniform draw per fuzz is what the model does; anything else is a disagreement, not a harness failure
+            return {"ok": v.time, "draws": px.tape.pos, "overrun": px.tape.overrun}
         return {"ok": v.time}
 
 
